@@ -29,8 +29,11 @@ def _needs_pi(m, i):
         if a.element in ('O', 'S'):
             return False if sigma == 2 else None
         return None
-    if a.isotope is not None and False:
-        return None
+    if a.charge == 0 and a.hcount == 0 and a.element in ('N', 'P', 'O', 'S'):
+        # [n] [p] [o] [s] (also isotope-labelled): a bare n / p / o / s has no implicit H either, same atom
+        if a.element in ('N', 'P'):
+            return sigma == 2
+        return False if sigma == 2 else None
     if a.element == 'N' and a.charge == 0 and a.hcount == 1 and sigma == 2:
         return False                       # [nH]
     if a.element == 'N' and a.charge == 0 and a.hcount == 0:
@@ -103,7 +106,10 @@ def analyze(s, reencode=True, stereo=True):
     try:
         smi = sf.decoder(sel)
     except Exception as e:
-        return [('C10:decodable', 'decoder raised %s on encoder output %r' % (type(e).__name__, sel))]
+        # the encoder accepted the molecule (strict) and its output cannot be decoded under the same table: C10 says
+        # so directly, and C03 ("decoding the result under K yields a SMILES whose i-th atom ...") has nothing to yield
+        return out + [('C10:decodable', 'decoder raised %s on encoder output %r' % (type(e).__name__, sel)),
+                      ('C03:decodes', 'decoder raised %s on the strict encoder output %r of %r' % (type(e).__name__, sel, s))]
     try:
         m_out = R.read_smiles(smi)
     except R.SmilesSyntaxError as e:
